@@ -53,6 +53,8 @@ def path_sites() -> list[dict[str, Any]]:
         S("path.index", "{{ obj[0] }}|{{ obj[-1] }}|{{ obj[0].@N@ }}|{{ obj[1][k] }}"),
         S("path.objs", "{{ objs[0].@N@ }}|{{ objs.first.@N@ }}|{{ objs.last[k] }}|{{ objs[1]['@N@'] }}"),
         S("path.child", "{{ obj.child.@N@ }}|{{ obj.child[k] }}|{{ obj.tags.@N@ }}|{{ obj.title.@N@ }}|{{ obj.n.@N@ }}"),
+        S("path.plaindict", "{{ pd.a.@N@ }}|{{ pd['a'][k] }}|{{ pd.l[0].@N@ }}|{{ pd.l.first.@N@ }}|{{ pd.l.last[k] }}|{{ pd.l | map: '@N@' }}|{{ pd.l | map: x => x.@N@ }}"),
+        S("path.field_then", "{{ obj[0].@N@ }}|{{ obj[2].@N@ }}|{{ obj[2][k] }}|{{ obj.last.@N@ }}|{{ obj.first.@N@ }}"),
         S("out.obj", "{{ obj }}|{% echo obj %}|{{ objs }}"),
         S("out.assign", "{% assign v = obj.@N@ %}{{ v }}|{% assign w = obj %}{{ w.@N@ }}|{{ w[k] }}"),
         S("out.capture", "{% capture c %}{{ obj.@N@ }}{{ obj[k] }}{% endcapture %}[{{ c }}]"),
